@@ -110,6 +110,8 @@ type Sched struct {
 	OnEvent func(e Event) []Event
 	// StoreSteps: also gate and log the "ls.*" points (steps of LocalStore.StoreChunk); off for all drivers but c08
 	StoreSteps bool
+	// FailoverSteps: also gate the "fo.*" points (a failover group switched its active store); off for all drivers but c11
+	FailoverSteps bool
 
 	Settle    time.Duration
 	Watchdog  time.Duration
@@ -161,6 +163,9 @@ func (s *Sched) kindOf(point string) Kind {
 func (s *Sched) Hook(point string, kv ...interface{}) {
 	// hook families a driver did not ask for (the steps inside LocalStore.StoreChunk) are not events of its scenario
 	if !s.StoreSteps && strings.HasPrefix(point, "ls.") {
+		return
+	}
+	if !s.FailoverSteps && strings.HasPrefix(point, "fo.") {
 		return
 	}
 	id := goid()
